@@ -32,11 +32,16 @@ def draw_header(r):
     th = r.uniform(0, 2 * math.pi)
     flip = -1.0 if chance(r, 0.3) else 1.0
     c, s = math.cos(th), math.sin(th)
+    if chance(r, 0.1):
+        # an image aligned with the sky axes: the off-diagonal (or the diagonal) CD elements are exactly zero
+        c, s = pick(r, [(1.0, 0.0), (0.0, 1.0), (-1.0, 0.0), (0.0, -1.0)])
     cd = [[-flip * scale * c, scale * s], [flip * scale * s, scale * c]]
-    ck = wpick(r, [("any", 5), ("pole", 1.5), ("nearpole", 2), ("seam", 2)])
+    ck = wpick(r, [("any", 5), ("pole", 1.5), ("nearpole", 2), ("seam", 2), ("round", 1)])
     hdr = {}
     if ck == "any":
         crval = (r.uniform(0, 360), math.degrees(math.asin(r.uniform(-1, 1))))
+    elif ck == "round":
+        crval = pick(r, [(0.0, 0.0), (180.0, 0.0), (90.0, 45.0), (270.0, -30.0), (45.0, 0.0), (0.0, 60.0), (180.0, -45.0), (10.0, 0.0)])
     elif ck == "pole":
         crval = (pick(r, [0.0, 77.7, 359.0]), pick(r, [90.0, -90.0]))
         if crval[1] == 90.0:
@@ -196,8 +201,10 @@ def plan(S, prop, mode, tier, avoid):
         ops = []
         for _ in range(r.randrange(1, 6) if not (tier == "thorough" and chance(r, 0.12)) else r.randrange(6, 16)):
             k = wpick(r, [("i2s", 4), ("rt", 6), ("jac", 1.5), ("s2i_far", 1), ("abort", 1.2), ("nan", 0.8),
-                          ("crpix", 1), ("s2i_given", 1.2)])
+                          ("crpix", 1), ("s2i_given", 1.2), ("look", 0.8)])
             op = {"k": k, "c": c}
+            if k == "look":
+                op["what"] = r.sample(["repr", "str", "keys", "item", "naxis", "items_all"], r.randrange(1, 4))
             if k == "i2s":
                 sh = _shape(r)
                 op.update({"shape": sh, "pts": _pts(r, hdr, _n_of(sh)), "distort": chance(r, 0.8),
@@ -610,6 +617,27 @@ def execute(script, run, env):
                     H.inverse_built = True
                     run.fault("lazy_inverse_fit_built_late" if H.ncalls > 0 else "lazy_inverse_fit_built_first")
                 judged_call("s2i", args, {"find": False}, "sky2image(%s, find=False)" % _short(args))
+        elif k == "look":
+            # harmless looks at the object between conversions: printing it, listing and reading its keywords
+            for what in op.get("what", []):
+                try:
+                    if what == "repr":
+                        repr(H.obj)
+                    elif what == "str":
+                        str(H.obj)
+                    elif what == "keys":
+                        list(H.obj.keys())
+                    elif what == "item":
+                        H.obj["crval1"], H.obj["cd1_1"]
+                    elif what == "naxis":
+                        H.obj.get_naxis()
+                    else:
+                        for key_ in list(H.obj.keys()):
+                            H.obj[key_]
+                except Exception:
+                    pass
+            run.fault("caller_looked_at_the_object")
+            run.event(c, "look", ",".join(op.get("what", [])), "ok")
         elif k == "crpix":
             H.last_shape = "scalar"
             got = judged_call("i2s", (hdr["crpix1"], hdr["crpix2"]), {"distort": op["distort"]},
